@@ -16,7 +16,7 @@ ASSUMPTIONS = [
     'inside a bracket-argument context no detached bracket group / bare ] is generated (the first ] closes the argument, R5)',
 ]
 ATTACHING = ['', ' ', '\t', '\n', ' \n ', '  ', '\t\n\t']
-DETACHING = ['\n\n', ' \n\n', '\n \n', '\n\t\n', '\t\n\t\n', '.', '%c\n', 'a']
+DETACHING = ['\n\n', ' \n\n', '\n \n', '\n\t\n', '\t\n\t\n', '.', '%c\n', 'a', 'é']
 
 
 def N():
@@ -42,6 +42,7 @@ def bodies(n):
         'a{b}c': ((('T', n.a), ('G{', (('T', n.b),)), ('T', n.a)), '[{'),
         'cmd': ((('C', n.y, (('G{', (('T', n.a),)),), ()),), '[{'),
         ' a ': ((('T', ' ' + n.a + ' '),), '[{'),
+        'g g': ((('G{', (('T', n.a),)), ('T', ' '), ('G{', (('T', n.b),))), '[{'),
     }
 
 
@@ -138,8 +139,10 @@ def check_case(acc, case, n=None):
     if node is None:
         acc.violation('find', c, 'the command is found', None, size)
         return
-    gota = [(type(a).__name__, str(a)) for a in node.args]
-    wanta = [('BracketGroup' if k == '[' else 'BraceGroup', k + gram.render(bodies(n)[bk][0]) + (']' if k == '[' else '}'))
+    # kind, text and the documented .string accessor (the characters between the delimiters)
+    gota = [(type(a).__name__, str(a), str(getattr(a, 'string', None))) for a in node.args]
+    wanta = [('BracketGroup' if k == '[' else 'BraceGroup', k + gram.render(bodies(n)[bk][0]) + (']' if k == '[' else '}'),
+              gram.render(bodies(n)[bk][0]))
              for k, bk in list(zip(case['kinds'], case['bodies']))[:p]]
     if gota != wanta:
         acc.violation('args', c, wanta, gota, size)
